@@ -1301,8 +1301,19 @@ pub (in crate::llir::lower) fn assign_registers(
         }
     }
 
+    #[cfg(truth_verif)]
+    let mut verif_stmt_index = 0usize;
+    #[cfg(truth_verif)]
+    crate::verif_hooks::reg_event(crate::verif_hooks::RegEvent::PoolInit {
+        general_use: hooks.general_use_regs().values().flat_map(|v| v.iter().map(|r| r.0)).collect(),
+        pool: remaining_scratch_regs_by_ty.values().flat_map(|v| v.iter().map(|r| r.0)).collect(),
+        explicit: explicitly_used_regs.keys().map(|r| r.0).collect(),
+        params: implicitly_used_regs.keys().map(|r| r.0).collect(),
+    });
     // assign scratch registers to all variables defined with RegAlloc
     for stmt in code {
+        #[cfg(truth_verif)]
+        { verif_stmt_index += 1; }
         match &mut stmt.value {
             &mut LowerStmt::RegAlloc { def_id } => {
                 has_used_scratch.get_or_insert(stmt.span);
@@ -1313,6 +1324,8 @@ pub (in crate::llir::lower) fn assign_registers(
                     script_too_complex(stmt, hooks, required_ty, &explicitly_used_regs, &implicitly_used_regs, &ctx)
                 })?;
 
+                #[cfg(truth_verif)]
+                crate::verif_hooks::reg_event(crate::verif_hooks::RegEvent::Alloc { def: format!("{:?}", def_id), reg: reg.0, stmt: verif_stmt_index });
                 implicitly_used_regs.insert(reg, (required_ty, stmt.span));
                 assert!(local_regs.insert(def_id, reg).is_none());
                 assert!(!clashing_names_for_regs.contains_key(&reg));
@@ -1328,6 +1341,8 @@ pub (in crate::llir::lower) fn assign_registers(
             LowerStmt::RegFree { def_id } => {
                 let inherent_ty = ctx.defs.var_inherent_ty(*def_id).as_known_ty().expect("(bug!) we allocated a reg so it must have a type");
                 let reg = local_regs.remove(&def_id).expect("(bug!) RegFree without RegAlloc!");
+                #[cfg(truth_verif)]
+                crate::verif_hooks::reg_event(crate::verif_hooks::RegEvent::Free { def: format!("{:?}", def_id), reg: reg.0, stmt: verif_stmt_index });
                 assert!(implicitly_used_regs.remove(&reg).is_some());
 
                 remaining_scratch_regs_by_ty[inherent_ty].push(reg);
